@@ -172,6 +172,8 @@ structure JobOk (s : St) (j : Nat) (b : Job) : Prop where
   reading : b.pc = .reading → ∀ f ∈ b.todoIn, f ∈ (s.ver (s.snap b.snap).ver).nos
   inputs : b.pc = .picked → ∀ m ∈ b.inputs, m.no ∈ (s.ver (s.snap b.snap).ver).nos
   recorded : postSwap b.pc = true → b.edit ∈ s.hist
+  nfread : b.pc = .cLocked → b.nfRead = s.nextFile
+  rolldel : editRange b.pc = true → b.kind ≠ .rollupDone → b.edit.rollDel = []
   listed : b.pc = .doListed → ∀ f ∈ b.dlist, f < s.nextFile
   pended : b.pc = .doPended → ∀ f ∈ b.dlist, f ∉ b.live → PastPending s f
   actived : b.pc = .doActived → ∀ f ∈ b.dlist, f ∉ b.live → Dead s f
